@@ -78,8 +78,84 @@ Proof.
     + apply IH; [assumption|]. intro H. apply NI. right. exact H.
 Qed.
 
+Lemma upsert_same : forall k v m, NoDup (map fst m) -> In (k, v) m -> upsert k v m = m.
+Proof.
+  induction m as [|[k' v'] m IH]; simpl; intros ND H; [contradiction|].
+  inversion ND as [|? ? NI ND']; subst. destruct (nkey_eqb k' k) eqn:E.
+  - apply nkey_eqb_eq in E. subst k'. destruct H as [H|H]; [inversion H; reflexivity|].
+    exfalso. apply NI. apply in_map_iff. exists (k, v). auto.
+  - destruct H as [H|H]; [inversion H; subst; rewrite (proj2 (nkey_eqb_eq k k) eq_refl) in E; discriminate|].
+    f_equal. apply IH; assumption.
+Qed.
+
+(* entries classified by `isnew`: old ones are already in the table, new ones have
+   fresh, pairwise distinct keys *)
+Lemma extend_general : forall (isnew : str * nkey -> bool) rp l,
+  NoDup (map fst l) ->
+  (forall e, In e rp -> isnew e = false -> In (swap e) l) ->
+  (forall e, In e rp -> isnew e = true -> ~ In (snd e) (map fst l)) ->
+  NoDup (map snd (filter isnew rp)) ->
+  extend l rp = l ++ map swap (filter isnew rp).
+Proof.
+  unfold extend. intros isnew.
+  induction rp as [|[s k] rp IH]; intros l ND A B C; simpl.
+  - rewrite app_nil_r. reflexivity.
+  - destruct (isnew (s, k)) eqn:E.
+    + simpl in C. rewrite E in C. simpl in C. inversion C as [|? ? Ck C']; subst.
+      rewrite upsert_fresh by (apply (B (s, k)); [left; reflexivity|exact E]).
+      rewrite IH.
+      * simpl. rewrite <- app_assoc. reflexivity.
+      * rewrite map_app. simpl. apply NoDup_app_single; [exact ND|].
+        apply (B (s, k)); [left; reflexivity|exact E].
+      * intros e He Ee. apply in_or_app. left. apply A; [right; exact He|exact Ee].
+      * intros e He Ee H. rewrite map_app in H. simpl in H. apply in_app_or in H as [H|[H|[]]].
+        -- apply (B e); [right; exact He|exact Ee|exact H].
+        -- apply Ck. rewrite H. apply in_map. apply filter_In. split; assumption.
+      * exact C'.
+    + simpl in C. rewrite E in C.
+      assert (Hin : In (k, s) l) by (apply (A (s, k)); [left; reflexivity|exact E]).
+      rewrite (upsert_same k s l ND Hin). apply IH; auto.
+      * intros e He. apply A. right. exact He.
+      * intros e He. apply B. right. exact He.
+Qed.
+
 (* ------------------------------------------------------------------------- *)
-(* registration invariant                                                      *)
+(* the largest source id                                                       *)
+
+Lemma max_fold_ge : forall (nm : names) acc,
+  acc <= fold_left (fun m (e : nkey * str) => N.max m (fst (fst e))) nm acc.
+Proof.
+  induction nm as [|e nm IH]; intro acc; cbn [fold_left]; [lia|].
+  eapply N.le_trans; [|apply IH]. lia.
+Qed.
+
+Lemma max_fold_in : forall (nm : names) acc k s, In (k, s) nm ->
+  fst k <= fold_left (fun m (e : nkey * str) => N.max m (fst (fst e))) nm acc.
+Proof.
+  induction nm as [|e nm IH]; intros acc k s H; [contradiction|]. cbn [fold_left].
+  destruct H as [H|H].
+  - subst e. cbn [fst]. eapply N.le_trans; [|apply max_fold_ge]. lia.
+  - apply IH with s. exact H.
+Qed.
+
+Lemma max_name_id_ge : forall nm k s, In (k, s) nm -> fst k <= max_name_id nm.
+Proof. intros nm k s H. unfold max_name_id. apply max_fold_in with s. exact H. Qed.
+
+Lemma max_name_id_255 : forall nm, 255 <= max_name_id nm.
+Proof. intro nm. unfold max_name_id. apply max_fold_ge. Qed.
+
+Lemma max_name_id_perm : forall nm nm', Permutation nm nm' -> max_name_id nm = max_name_id nm'.
+Proof.
+  unfold max_name_id. intros nm nm' P. generalize 255.
+  induction P; intro a; cbn [fold_left].
+  - reflexivity.
+  - apply IHP.
+  - f_equal. lia.
+  - rewrite IHP1. apply IHP2.
+Qed.
+
+(* ------------------------------------------------------------------------- *)
+(* reusable_names before registration                                          *)
 
 Lemma rmap_mem_true : forall s m, rmap_mem s m = true <-> In s (map fst m).
 Proof.
@@ -88,28 +164,131 @@ Proof.
   - intro H. apply in_map_iff in H as [e [E He]]. exists e. split; [exact He|]. subst. apply str_eqb_refl.
 Qed.
 
-(* ids are 256, 257, ... in insertion order; each key is the key of its string; strings distinct *)
-Definition reg_inv (st : N * rmap) : Prop :=
-  let '(gen, m) := st in
-  gen = 255 + N.of_nat (length m)
-  /\ (forall n e, nth_error m n = Some e -> snd e = key_of (256 + N.of_nat n) (fst e))
-  /\ NoDup (map fst m).
-
-Lemma reg_inv_init : reg_inv (255, []).
+Lemma rmap_upsert_in : forall s k m e, In e (rmap_upsert s k m) -> e = (s, k) \/ In e m.
 Proof.
-  simpl. split; [lia|]. split; [|constructor].
-  intros n e H. destruct n; discriminate.
+  induction m as [|[s' k'] m IH]; simpl; intros e H.
+  - destruct H as [H|[]]. left. auto.
+  - destruct (str_eqb s' s).
+    + destruct H as [H|H]; [left; auto|right; right; exact H].
+    + destruct H as [H|H]; [right; left; exact H|]. apply IH in H as [H|H]; auto.
 Qed.
 
-Lemma register_inv : forall st s, reg_inv st -> reg_inv (register st s).
+Lemma rmap_upsert_strs : forall s k m s', In s' (map fst (rmap_upsert s k m)) <-> s' = s \/ In s' (map fst m).
 Proof.
-  intros [gen m] s [Hg [Hk Hn]]. unfold register.
-  destruct (rmap_mem s m) eqn:E; [simpl; auto|].
-  unfold reg_inv. rewrite app_length. cbn [length]. split; [lia|]. split.
-  - intros n e H. destruct (Nat.lt_ge_cases n (length m)) as [L|L].
+  induction m as [|[s0 k0] m IH]; simpl; intro s'.
+  - split; [intros [H|[]]; left; auto|intros [H|[]]; left; auto].
+  - destruct (str_eqb s0 s) eqn:E; simpl.
+    + apply str_eqb_eq in E. subst. split; [intros [H|H]; auto|intros [H|[H|H]]; auto].
+    + rewrite IH. split; [intros [H|[H|H]]; auto|intros [H|[H|H]]; auto].
+Qed.
+
+Lemma rmap_upsert_nodup : forall s k m, NoDup (map fst m) -> NoDup (map fst (rmap_upsert s k m)).
+Proof.
+  induction m as [|[s0 k0] m IH]; simpl; intro ND.
+  - constructor; [intros []|constructor].
+  - inversion ND as [|? ? NI ND']; subst. destruct (str_eqb s0 s) eqn:E; simpl.
+    + apply str_eqb_eq in E. subst. constructor; assumption.
+    + constructor; [|apply IH; exact ND'].
+      intro H. apply rmap_upsert_strs in H as [H|H]; [|contradiction].
+      subst. rewrite str_eqb_refl in E. discriminate.
+Qed.
+
+Lemma rmap_mem_upsert : forall s k m s', rmap_mem s' (rmap_upsert s k m) = str_eqb s s' || rmap_mem s' m.
+Proof.
+  intros s k m s'. destruct (rmap_mem s' (rmap_upsert s k m)) eqn:E.
+  - apply rmap_mem_true in E. apply rmap_upsert_strs in E as [E|E].
+    + subst. rewrite str_eqb_refl. reflexivity.
+    + apply rmap_mem_true in E. rewrite E. symmetry. apply orb_true_r.
+  - symmetry. apply orb_false_iff. split.
+    + apply str_eqb_neq. intro H. subst.
+      assert (T : rmap_mem s' (rmap_upsert s' k m) = true) by (apply rmap_mem_true, rmap_upsert_strs; left; reflexivity).
+      congruence.
+    + destruct (rmap_mem s' m) eqn:M; [|reflexivity]. apply rmap_mem_true in M.
+      assert (T : rmap_mem s' (rmap_upsert s k m) = true) by (apply rmap_mem_true, rmap_upsert_strs; right; exact M).
+      congruence.
+Qed.
+
+Definition r0_step (m : rmap) (e : nkey * str) : rmap :=
+  if 255 <? fst (fst e) then rmap_upsert (snd e) (fst e) m else m.
+
+Lemma reusable0_fold : forall nm, reusable0 nm = fold_left r0_step nm [].
+Proof. reflexivity. Qed.
+
+Lemma r0_fold_in : forall nm acc s k,
+  In (s, k) (fold_left r0_step nm acc) -> In (s, k) acc \/ (In (k, s) nm /\ 255 < fst k).
+Proof.
+  induction nm as [|e nm IH]; simpl; intros acc s k H; [auto|].
+  apply IH in H as [H|[H1 H2]]; [|right; split; [right; exact H1|exact H2]].
+  unfold r0_step in H. destruct (N.ltb_spec 255 (fst (fst e))); [|auto].
+  apply rmap_upsert_in in H as [H|H]; [|auto]. inversion H; subst. right. split; [left; destruct e; reflexivity|assumption].
+Qed.
+
+Lemma r0_fold_nodup : forall nm acc, NoDup (map fst acc) -> NoDup (map fst (fold_left r0_step nm acc)).
+Proof.
+  induction nm as [|e nm IH]; simpl; intros acc H; [exact H|]. apply IH.
+  unfold r0_step. destruct (255 <? fst (fst e)); [apply rmap_upsert_nodup|]; exact H.
+Qed.
+
+Lemma r0_fold_mem : forall nm acc s,
+  rmap_mem s (fold_left r0_step nm acc)
+  = rmap_mem s acc || existsb (fun e : nkey * str => (255 <? fst (fst e)) && str_eqb (snd e) s) nm.
+Proof.
+  induction nm as [|e nm IH]; simpl; intros acc s; [rewrite orb_false_r; reflexivity|].
+  rewrite IH. unfold r0_step. destruct (255 <? fst (fst e)); simpl.
+  - rewrite rmap_mem_upsert. rewrite (orb_comm (str_eqb (snd e) s)), orb_assoc. reflexivity.
+  - reflexivity.
+Qed.
+
+Lemma reusable0_in : forall nm s k, In (s, k) (reusable0 nm) -> In (k, s) nm /\ 255 < fst k.
+Proof. intros nm s k H. rewrite reusable0_fold in H. apply r0_fold_in in H as [[]|H]. exact H. Qed.
+
+Lemma reusable0_nodup : forall nm, NoDup (map fst (reusable0 nm)).
+Proof. intro nm. rewrite reusable0_fold. apply r0_fold_nodup. constructor. Qed.
+
+Lemma existsb_perm : forall {A} (f : A -> bool) l l', Permutation l l' -> existsb f l = existsb f l'.
+Proof.
+  intros A f l l' P. induction P; simpl.
+  - reflexivity.
+  - rewrite IHP. reflexivity.
+  - rewrite !orb_assoc, (orb_comm (f y)). reflexivity.
+  - congruence.
+Qed.
+
+Lemma reusable0_mem_perm : forall nm nm' s, Permutation nm nm' ->
+  rmap_mem s (reusable0 nm) = rmap_mem s (reusable0 nm').
+Proof.
+  intros nm nm' s P. rewrite !reusable0_fold, !r0_fold_mem. f_equal. apply existsb_perm. exact P.
+Qed.
+
+(* ------------------------------------------------------------------------- *)
+(* registration invariant                                                      *)
+
+(* reusable_names = the source's entries followed by the registered ones, whose ids
+   are g0+1, g0+2, ... in insertion order (g0 = largest source id); strings distinct *)
+Definition reg_inv (nm : names) (st : N * rmap) : Prop :=
+  let '(gen, m) := st in
+  exists m1, m = reusable0 nm ++ m1
+    /\ gen = max_name_id nm + N.of_nat (length m1)
+    /\ (forall n e, nth_error m1 n = Some e -> snd e = key_of (max_name_id nm + 1 + N.of_nat n) (fst e))
+    /\ NoDup (map fst m).
+
+Lemma reg_inv_init : forall nm, reg_inv nm (max_name_id nm, reusable0 nm).
+Proof.
+  intro nm. exists []. rewrite app_nil_r. split; [reflexivity|]. split; [simpl; lia|]. split.
+  - intros n e H. destruct n; discriminate.
+  - apply reusable0_nodup.
+Qed.
+
+Lemma register_inv : forall nm st s, reg_inv nm st -> reg_inv nm (register st s).
+Proof.
+  intros nm [gen m] s [m1 [Hm [Hg [Hk Hn]]]]. unfold register.
+  destruct (rmap_mem s m) eqn:E; [exists m1; auto|].
+  exists (m1 ++ [(s, key_of (gen + 1) s)]). split; [rewrite Hm, app_assoc; reflexivity|].
+  rewrite app_length. cbn [length]. split; [lia|]. split.
+  - intros n e H. destruct (Nat.lt_ge_cases n (length m1)) as [L|L].
     + rewrite nth_error_app1 in H by exact L. apply Hk. exact H.
     + rewrite nth_error_app2 in H by exact L.
-      destruct (n - length m)%nat eqn:D; simpl in H.
+      destruct (n - length m1)%nat eqn:D; simpl in H.
       * inversion H; subst e. cbn [fst snd]. f_equal. lia.
       * destruct n0; discriminate.
   - rewrite map_app. simpl. apply NoDup_app_single.
@@ -136,8 +315,8 @@ Proof.
   apply in_map. apply register_mono. exact He.
 Qed.
 
-Lemma fold_register_inv : forall l st, reg_inv st -> reg_inv (fold_left register l st).
-Proof. induction l as [|s l IH]; simpl; intros st H; [exact H|]. apply IH. apply register_inv. exact H. Qed.
+Lemma fold_register_inv : forall nm l st, reg_inv nm st -> reg_inv nm (fold_left register l st).
+Proof. intros nm. induction l as [|s l IH]; simpl; intros st H; [exact H|]. apply IH. apply register_inv. exact H. Qed.
 
 Lemma fold_register_mono : forall l st e, In e (snd st) -> In e (snd (fold_left register l st)).
 Proof. induction l as [|s l IH]; simpl; intros st e H; [exact H|]. apply IH. apply register_mono. exact H. Qed.
@@ -150,9 +329,9 @@ Proof.
   - apply IH. exact H.
 Qed.
 
-Lemma reg_inst_inv : forall nm axes st i, reg_inv st -> reg_inv (reg_inst nm axes st i).
+Lemma reg_inst_inv : forall nm0 nm axes st i, reg_inv nm0 st -> reg_inv nm0 (reg_inst nm axes st i).
 Proof.
-  intros nm axes st i H. unfold reg_inst.
+  intros nm0 nm axes st i H. unfold reg_inst.
   destruct (is_default axes i && reuses_subfamily nm (i_name i)); destruct (i_ps i);
     repeat apply register_inv; exact H.
 Qed.
@@ -183,8 +362,8 @@ Proof.
   - apply register_has.
 Qed.
 
-Lemma fold_reg_inst_inv : forall nm axes l st, reg_inv st -> reg_inv (fold_left (reg_inst nm axes) l st).
-Proof. induction l as [|i l IH]; simpl; intros st H; [exact H|]. apply IH. apply reg_inst_inv. exact H. Qed.
+Lemma fold_reg_inst_inv : forall nm0 nm axes l st, reg_inv nm0 st -> reg_inv nm0 (fold_left (reg_inst nm axes) l st).
+Proof. intros nm0 nm axes. induction l as [|i l IH]; simpl; intros st H; [exact H|]. apply IH. apply reg_inst_inv. exact H. Qed.
 
 Lemma fold_reg_inst_mono : forall nm axes l st e, In e (snd st) -> In e (snd (fold_left (reg_inst nm axes) l st)).
 Proof. induction l as [|i l IH]; simpl; intros st e H; [exact H|]. apply IH. apply reg_inst_mono. exact H. Qed.
@@ -214,69 +393,118 @@ Proof.
 Qed.
 
 (* ------------------------------------------------------------------------- *)
-(* source names with reserved ids only                                         *)
+(* the final table                                                             *)
 
-Definition ids_reserved (nm : names) : Prop := Forall (fun e => fst (fst e) <= 255) nm.
-
-Lemma reusable0_nil : forall nm, ids_reserved nm -> reusable0 nm = [].
+Lemma filter_perm : forall {A} (f : A -> bool) l l', Permutation l l' -> Permutation (filter f l) (filter f l').
 Proof.
-  unfold reusable0. intros nm H.
-  assert (G : forall acc, fold_left (fun m e => if 255 <? fst (fst e) then rmap_upsert (snd e) (fst e) m else m) nm acc = acc).
-  { induction H as [|e nm He H IH]; simpl; intro acc; [reflexivity|].
-    destruct (N.ltb_spec 255 (fst (fst e))); [lia|]. apply IH. }
-  apply G.
+  intros A f l l' P. induction P; simpl.
+  - constructor.
+  - destruct (f x); [constructor|]; assumption.
+  - destruct (f x), (f y); try constructor; try apply Permutation_refl. 
+  - eapply Permutation_trans; eassumption.
 Qed.
 
 Definition alloc_state (nm : names) (axes : list axis) (insts : list inst) : N * rmap :=
   fold_left (reg_inst nm axes) (kept_instances axes insts)
-    (fold_left register (map a_label (variable_axes axes)) (255, reusable0 nm)).
+    (fold_left register (map a_label (variable_axes axes)) (max_name_id nm, reusable0 nm)).
 
 Lemma alloc_is_state : forall nm axes insts, alloc nm axes insts = snd (alloc_state nm axes insts).
 Proof. reflexivity. Qed.
 
-Lemma alloc_inv : forall nm axes insts, ids_reserved nm -> reg_inv (alloc_state nm axes insts).
+Lemma alloc_inv : forall nm axes insts, reg_inv nm (alloc_state nm axes insts).
 Proof.
-  intros nm axes insts H. unfold alloc_state. rewrite (reusable0_nil nm H).
+  intros nm axes insts. unfold alloc_state.
   apply fold_reg_inst_inv. apply fold_register_inv. apply reg_inv_init.
 Qed.
 
-Lemma reg_inv_entry : forall gen m s k, reg_inv (gen, m) -> In (s, k) m -> exists id, k = key_of id s /\ 256 <= id.
+(* an entry is new when its id lies above every source id *)
+Definition newb (nm : names) (e : str * nkey) : bool := max_name_id nm <? fst (snd e).
+
+Lemma filter_all_false : forall {A} (f : A -> bool) l, (forall x, In x l -> f x = false) -> filter f l = [].
 Proof.
-  intros gen m s k [_ [Hk _]] H. apply In_nth_error in H as [n Hn].
-  exists (256 + N.of_nat n). split; [|lia]. apply (Hk n (s, k) Hn).
+  induction l as [|x l IH]; simpl; intro H; [reflexivity|].
+  rewrite (H x (or_introl eq_refl)). apply IH. intros y Hy. apply H. right. exact Hy.
 Qed.
 
-Lemma reg_inv_nodup_keys : forall gen m, reg_inv (gen, m) -> NoDup (map snd m).
+Lemma filter_all_true : forall {A} (f : A -> bool) l, (forall x, In x l -> f x = true) -> filter f l = l.
 Proof.
-  intros gen m [_ [Hk _]]. apply NoDup_nth_error. intros i j Hi E.
-  rewrite map_length in Hi. rewrite !nth_error_map in E.
-  destruct (nth_error m i) as [ei|] eqn:Ei; [|apply nth_error_None in Ei; lia].
-  destruct (nth_error m j) as [ej|] eqn:Ej; [|discriminate].
-  simpl in E. inversion E as [E']. rewrite (Hk i ei Ei), (Hk j ej Ej) in E'.
-  unfold key_of in E'. apply (f_equal fst) in E'. cbn [fst] in E'. lia.
+  induction l as [|x l IH]; simpl; intro H; [reflexivity|].
+  rewrite (H x (or_introl eq_refl)). f_equal. apply IH. intros y Hy. apply H. right. exact Hy.
 Qed.
 
-Lemma reg_inv_nodup_strs : forall gen m, reg_inv (gen, m) -> NoDup (map fst m).
-Proof. intros gen m [_ [_ H]]. exact H. Qed.
+(* alloc = source entries ++ registered entries, with everything the proofs need *)
+Lemma alloc_split : forall nm axes insts,
+  exists m1, alloc nm axes insts = reusable0 nm ++ m1
+    /\ filter (newb nm) (alloc nm axes insts) = m1
+    /\ NoDup (map snd m1)
+    /\ NoDup (map fst (alloc nm axes insts))
+    /\ (forall s k, In (s, k) m1 -> exists id, k = key_of id s /\ max_name_id nm < id).
+Proof.
+  intros nm axes insts. pose proof (alloc_inv nm axes insts) as I. rewrite alloc_is_state.
+  destruct (alloc_state nm axes insts) as [gen m]. destruct I as [m1 [Hm [Hg [Hk Hn]]]]. simpl.
+  assert (Hnew : forall s k, In (s, k) m1 -> exists id, k = key_of id s /\ max_name_id nm < id).
+  { intros s k H. apply In_nth_error in H as [n Hn']. exists (max_name_id nm + 1 + N.of_nat n).
+    split; [apply (Hk n (s, k) Hn')|lia]. }
+  exists m1. split; [exact Hm|]. split; [|split; [|split; [exact Hn|exact Hnew]]].
+  - rewrite Hm, filter_app. rewrite filter_all_false, filter_all_true; [reflexivity| |].
+    + intros [s k] H. destruct (Hnew s k H) as [id [-> Hid]]. unfold newb, key_of. cbn [fst snd].
+      apply N.ltb_lt. exact Hid.
+    + intros [s k] H. apply reusable0_in in H as [H _]. apply max_name_id_ge in H.
+      unfold newb. cbn [fst snd]. apply N.ltb_ge. exact H.
+  - apply NoDup_nth_error. intros i j Hi E. rewrite map_length in Hi. rewrite !nth_error_map in E.
+    destruct (nth_error m1 i) as [ei|] eqn:Ei; [|apply nth_error_None in Ei; lia].
+    destruct (nth_error m1 j) as [ej|] eqn:Ej; [|discriminate].
+    simpl in E. inversion E as [E']. rewrite (Hk i ei Ei), (Hk j ej Ej) in E'.
+    unfold key_of in E'. apply (f_equal fst) in E'. cbn [fst] in E'. lia.
+Qed.
 
-(* the final table is the source table followed by the registered names, whatever
-   order reusable_names is iterated in *)
+(* the final table is the source table followed by the newly registered names, whatever
+   order reusable_names is iterated in: no source record is touched *)
 Lemma final_form : forall nm axes insts rp,
-  ids_reserved nm -> Permutation rp (alloc nm axes insts) ->
-  extend nm rp = nm ++ map swap rp.
+  NoDup (map fst nm) -> Permutation rp (alloc nm axes insts) ->
+  extend nm rp = nm ++ map swap (filter (newb nm) rp).
 Proof.
-  intros nm axes insts rp R P.
-  pose proof (alloc_inv nm axes insts R) as I. rewrite alloc_is_state in P.
-  destruct (alloc_state nm axes insts) as [gen m] eqn:S. simpl in P.
-  apply extend_fresh.
-  - apply Permutation_NoDup with (map snd m).
-    + apply Permutation_map. apply Permutation_sym. exact P.
-    + apply reg_inv_nodup_keys with gen. exact I.
-  - intros [s k] He. simpl. apply (Permutation_in _ P) in He.
-    destruct (reg_inv_entry gen m s k I He) as [id [-> Hid]].
-    intro H. apply in_map_iff in H as [e [E He']].
-    unfold ids_reserved in R. rewrite Forall_forall in R. specialize (R e He').
-    cbv beta in R. destruct e as [[i en] v]. cbn [fst] in *. unfold key_of in E. inversion E. lia.
+  intros nm axes insts rp ND P.
+  destruct (alloc_split nm axes insts) as [m1 [Ha [Hf [Hk [_ Hnew]]]]].
+  apply extend_general.
+  - exact ND.
+  - intros [s k] He E. apply (Permutation_in _ P) in He. rewrite Ha in He.
+    apply in_app_or in He as [He|He].
+    + apply reusable0_in in He as [He _]. exact He.
+    + destruct (Hnew s k He) as [id [-> Hid]]. unfold newb, key_of in E. cbn [fst snd] in E.
+      apply N.ltb_ge in E. lia.
+  - intros [s k] He E H. unfold newb in E. cbn [fst snd] in *. apply N.ltb_lt in E.
+    apply in_map_iff in H as [[k' v] [Ek Hk']]. cbn [fst] in Ek. subst k'.
+    apply max_name_id_ge in Hk'. lia.
+  - apply Permutation_NoDup with (map snd m1); [|exact Hk].
+    apply Permutation_map. rewrite <- Hf. apply filter_perm. apply Permutation_sym. exact P.
+Qed.
+
+Lemma nodup_app : forall {A} (l l' : list A),
+  NoDup l -> NoDup l' -> (forall x, In x l -> ~ In x l') -> NoDup (l ++ l').
+Proof.
+  induction l as [|x l IH]; simpl; intros l' N1 N2 D; [exact N2|].
+  inversion N1; subst. constructor.
+  - intro H. apply in_app_or in H as [H|H]; [contradiction|]. apply (D x); auto.
+  - apply IH; [assumption|assumption|]. intros y Hy. apply D. right. exact Hy.
+Qed.
+
+(* one record per key in the final table *)
+Lemma final_keys_nodup : forall nm axes insts rp,
+  NoDup (map fst nm) -> Permutation rp (alloc nm axes insts) ->
+  NoDup (map fst (extend nm rp)).
+Proof.
+  intros nm axes insts rp ND P. rewrite (final_form nm axes insts rp ND P).
+  destruct (alloc_split nm axes insts) as [m1 [_ [Hf [Hk _]]]].
+  rewrite map_app, map_map. apply nodup_app.
+  - exact ND.
+  - change (fun x : str * nkey => fst (swap x)) with (fun x : str * nkey => snd x).
+    apply Permutation_NoDup with (map snd m1); [|exact Hk].
+    apply Permutation_map. rewrite <- Hf. apply filter_perm. apply Permutation_sym. exact P.
+  - intros k Hk1 Hk2. apply in_map_iff in Hk1 as [[k' v] [E H1]]. cbn [fst] in E. subst k'.
+    apply in_map_iff in Hk2 as [[s k'] [E H2]]. unfold swap in E. cbn [fst snd] in E. subst k'.
+    apply filter_In in H2 as [_ H2]. unfold newb in H2. cbn [fst snd] in H2. apply N.ltb_lt in H2.
+    apply max_name_id_ge in H1. lia.
 Qed.
 
 (* ------------------------------------------------------------------------- *)
@@ -307,23 +535,6 @@ Proof.
   intros [|y l] x H; [contradiction|]. simpl. destruct (min_list l); eexists; reflexivity.
 Qed.
 
-Lemma rni_in : forall nm s allow m,
-  reusable_name_id nm s allow = Some m -> In m (ids_of nm s) /\ (allow || (256 <=? m)) = true.
-Proof.
-  intros nm s allow m H. unfold reusable_name_id in H. apply min_list_spec in H as [H _].
-  apply filter_In in H. exact H.
-Qed.
-
-Lemma rni_some : forall nm s allow id,
-  In id (ids_of nm s) -> (allow || (256 <=? id)) = true ->
-  exists m, reusable_name_id nm s allow = Some m /\ m <= id.
-Proof.
-  intros nm s allow id H A. unfold reusable_name_id.
-  assert (I : In id (filter (fun id => allow || (256 <=? id)) (ids_of nm s))) by (apply filter_In; split; assumption).
-  destruct (min_list_some _ _ I) as [m E]. exists m. split; [exact E|].
-  apply min_list_spec in E as [_ F]. rewrite Forall_forall in F. apply F. exact I.
-Qed.
-
 Lemma min_list_perm : forall l l', Permutation l l' -> min_list l = min_list l'.
 Proof.
   intros l l' P. destruct (min_list l) as [m|] eqn:E; destruct (min_list l') as [m'|] eqn:E'.
@@ -338,13 +549,23 @@ Proof.
   - reflexivity.
 Qed.
 
-Lemma filter_perm : forall {A} (f : A -> bool) l l', Permutation l l' -> Permutation (filter f l) (filter f l').
+
+
+Lemma rni_in : forall nm s allow m,
+  reusable_name_id nm s allow = Some m -> In m (ids_of nm s) /\ id_allowed allow m = true.
 Proof.
-  intros A f l l' P. induction P; simpl.
-  - constructor.
-  - destruct (f x); [constructor|]; assumption.
-  - destruct (f x), (f y); try constructor; try apply Permutation_refl. 
-  - eapply Permutation_trans; eassumption.
+  intros nm s allow m H. unfold reusable_name_id in H. apply min_list_spec in H as [H _].
+  apply filter_In in H. exact H.
+Qed.
+
+Lemma rni_some : forall nm s allow id,
+  In id (ids_of nm s) -> id_allowed allow id = true ->
+  exists m, reusable_name_id nm s allow = Some m /\ m <= id.
+Proof.
+  intros nm s allow id H A. unfold reusable_name_id.
+  assert (I : In id (filter (id_allowed allow) (ids_of nm s))) by (apply filter_In; split; assumption).
+  destruct (min_list_some _ _ I) as [m E]. exists m. split; [exact E|].
+  apply min_list_spec in E as [_ F]. rewrite Forall_forall in F. apply F. exact I.
 Qed.
 
 Lemma rni_perm : forall nm nm' s allow, Permutation nm nm' ->
@@ -353,6 +574,26 @@ Proof.
   intros nm nm' s allow P. unfold reusable_name_id, ids_of. apply min_list_perm.
   apply filter_perm. apply Permutation_map. apply filter_perm. exact P.
 Qed.
+
+(* fvar InstanceRecord.subfamilyNameID: 2 or 17 only for the default instance, else >= 256 *)
+Definition instance_id_allowed (dflt : bool) (id : N) : Prop :=
+  256 <= id \/ (dflt = true /\ (id = 2 \/ id = 17)).
+
+Lemma id_allowed_spec : forall allow id, id_allowed allow id = true -> instance_id_allowed allow id.
+Proof.
+  intros allow id H. unfold id_allowed in H. apply orb_true_iff in H as [H|H].
+  - left. apply N.leb_le. exact H.
+  - apply andb_true_iff in H as [H1 H2]. right. split; [exact H1|].
+    apply orb_true_iff in H2 as [H2|H2]; apply N.eqb_eq in H2; auto.
+Qed.
+
+Lemma id_allowed_false : forall id, id_allowed false id = true -> 256 <= id.
+Proof.
+  intros id H. unfold id_allowed in H. simpl in H. rewrite orb_false_r in H. apply N.leb_le. exact H.
+Qed.
+
+Lemma id_allowed_ge : forall allow id, 256 <= id -> id_allowed allow id = true.
+Proof. intros allow id H. unfold id_allowed. apply orb_true_iff. left. apply N.leb_le. exact H. Qed.
 
 (* ------------------------------------------------------------------------- *)
 (* every id fvar / STAT use exists and carries the source string               *)
@@ -380,47 +621,57 @@ Proof.
   apply fold_reg_inst_has_name; assumption.
 Qed.
 
+(* a registered string has a record with an id >= 256 in the final table *)
+Lemma registered_has_record : forall nm axes insts rp s,
+  NoDup (map fst nm) -> Permutation rp (alloc nm axes insts) ->
+  In s (map fst (alloc nm axes insts)) ->
+  exists id enc, 256 <= id /\ In ((id, enc), s) (extend nm rp).
+Proof.
+  intros nm axes insts rp s ND P H. rewrite (final_form nm axes insts rp ND P).
+  destruct (alloc_split nm axes insts) as [m1 [Ha [Hf [_ [_ Hnew]]]]].
+  apply in_map_iff in H as [[s' k] [E He]]. simpl in E. subst s'.
+  pose proof He as He0. rewrite Ha in He. apply in_app_or in He as [He|He].
+  - apply reusable0_in in He as [He Hk]. destruct k as [id enc]. exists id, enc. cbn [fst] in Hk.
+    split; [lia|]. apply in_or_app. left. exact He.
+  - destruct (Hnew s k He) as [id [-> Hid]]. exists id, (encoding_for s).
+    pose proof (max_name_id_255 nm). split; [lia|]. apply in_or_app. right.
+    apply in_map_iff. exists (s, key_of id s). split; [reflexivity|]. apply filter_In. split.
+    + apply Permutation_in with (alloc nm axes insts); [apply Permutation_sym; exact P|exact He0].
+    + unfold newb, key_of. cbn [fst snd]. apply N.ltb_lt. exact Hid.
+Qed.
+
 Lemma registered_usable : forall nm axes insts rp s allow,
-  ids_reserved nm -> Permutation rp (alloc nm axes insts) ->
+  NoDup (map fst nm) -> Permutation rp (alloc nm axes insts) ->
   In s (map fst (alloc nm axes insts)) ->
   exists m enc, reusable_name_id (extend nm rp) s allow = Some m
                 /\ In ((m, enc), s) (extend nm rp)
-                /\ (allow = false -> 256 <= m).
+                /\ id_allowed allow m = true.
 Proof.
-  intros nm axes insts rp s allow R P H.
-  rewrite (final_form nm axes insts rp R P).
-  apply in_map_iff in H as [[s' k] [E He]]. simpl in E. subst s'.
-  pose proof (alloc_inv nm axes insts R) as I. rewrite alloc_is_state in He.
-  destruct (alloc_state nm axes insts) as [gen m0] eqn:S. simpl in He.
-  destruct (reg_inv_entry gen m0 s k I He) as [id [-> Hid]].
-  assert (Hin : In ((id, encoding_for s), s) (nm ++ map swap rp)).
-  { apply in_or_app. right. apply in_map_iff. exists (s, key_of id s). split; [reflexivity|].
-    apply Permutation_in with m0; [|exact He]. apply Permutation_sym.
-    rewrite alloc_is_state, S in P. exact P. }
-  assert (Hid' : In id (ids_of (nm ++ map swap rp) s)) by (apply in_ids_of; eexists; exact Hin).
-  destruct (rni_some _ s allow id Hid') as [m [Hm Hle]].
-  { destruct (N.leb_spec 256 id); [apply orb_true_r|lia]. }
-  destruct (rni_in _ _ _ _ Hm) as [Hm1 Hm2]. apply in_ids_of in Hm1 as [enc Hm1].
-  exists m, enc. split; [exact Hm|]. split; [exact Hm1|].
-  intros ->. simpl in Hm2. apply N.leb_le in Hm2. exact Hm2.
+  intros nm axes insts rp s allow ND P H.
+  destruct (registered_has_record nm axes insts rp s ND P H) as [id [enc [Hid Hin]]].
+  assert (Hid' : In id (ids_of (extend nm rp) s)) by (apply in_ids_of; eexists; exact Hin).
+  destruct (rni_some _ s allow id Hid' (id_allowed_ge allow id Hid)) as [m [Hm _]].
+  destruct (rni_in _ _ _ _ Hm) as [Hm1 Hm2]. apply in_ids_of in Hm1 as [enc' Hm1].
+  exists m, enc'. auto.
 Qed.
 
 Lemma reuse_usable : forall nm rp0 s,
   reuses_subfamily nm s = true ->
-  exists m enc, reusable_name_id (nm ++ rp0) s true = Some m /\ In ((m, enc), s) (nm ++ rp0).
+  exists m enc, reusable_name_id (nm ++ rp0) s true = Some m /\ In ((m, enc), s) (nm ++ rp0)
+                /\ id_allowed true m = true.
 Proof.
-  intros nm rp0 s H. unfold reuses_subfamily, first_hit in H.
-  destruct (find (fun e => str_eqb (snd e) s) nm) as [[[id en] v]|] eqn:F; [|discriminate].
-  apply find_some in F as [F1 F2]. simpl in F2. apply str_eqb_eq in F2. subst v.
+  intros nm rp0 s H. unfold reuses_subfamily in H. apply existsb_exists in H as [[[id en] v] [F1 F2]].
+  cbn [fst snd] in F2. apply andb_true_iff in F2 as [F2 F3]. apply str_eqb_eq in F2. subst v.
   assert (Hid : In id (ids_of (nm ++ rp0) s)).
   { apply in_ids_of. exists en. apply in_or_app. left. exact F1. }
-  destruct (rni_some _ s true id Hid eq_refl) as [m [Hm _]].
-  destruct (rni_in _ _ _ _ Hm) as [Hm1 _]. apply in_ids_of in Hm1 as [enc Hm1].
-  exists m, enc. split; assumption.
+  assert (A : id_allowed true id = true) by (unfold id_allowed; rewrite F3; apply orb_true_r).
+  destruct (rni_some _ s true id Hid A) as [m [Hm _]].
+  destruct (rni_in _ _ _ _ Hm) as [Hm1 Hm2]. apply in_ids_of in Hm1 as [enc Hm1].
+  exists m, enc. auto.
 Qed.
 
 Lemma used_ids_exist : forall nm axes insts rp,
-  ids_reserved nm -> Permutation rp (alloc nm axes insts) ->
+  NoDup (map fst nm) -> Permutation rp (alloc nm axes insts) ->
   let fin := extend nm rp in
   (forall a, In a (variable_axes axes) ->
      exists id enc, reusable_name_id fin (a_label a) false = Some id
@@ -428,46 +679,56 @@ Lemma used_ids_exist : forall nm axes insts rp,
   /\ (forall i, In i (kept_instances axes insts) ->
      exists id enc, reusable_name_id fin (i_name i) (is_default axes i) = Some id
                     /\ In ((id, enc), i_name i) fin
-                    /\ (is_default axes i = false -> 256 <= id))
+                    /\ instance_id_allowed (is_default axes i) id)
   /\ (forall i p, In i (kept_instances axes insts) -> i_ps i = Some p ->
      exists id enc, reusable_name_id fin p false = Some id
                     /\ 256 <= id /\ In ((id, enc), p) fin).
 Proof.
-  intros nm axes insts rp R P fin. subst fin. repeat split.
+  intros nm axes insts rp ND P fin. subst fin. repeat split.
   - intros a Ha.
-    destruct (registered_usable nm axes insts rp (a_label a) false R P (label_registered nm axes insts a Ha))
+    destruct (registered_usable nm axes insts rp (a_label a) false ND P (label_registered nm axes insts a Ha))
       as [m [enc [H1 [H2 H3]]]].
-    exists m, enc. repeat split; auto.
+    exists m, enc. repeat split; auto. apply id_allowed_false. exact H3.
   - intros i Hi.
     destruct (is_default axes i && reuses_subfamily nm (i_name i)) eqn:D.
     + apply andb_true_iff in D as [D1 D2]. rewrite D1.
-      rewrite (final_form nm axes insts rp R P).
-      destruct (reuse_usable nm (map swap rp) (i_name i) D2) as [m [enc [H1 H2]]].
-      exists m, enc. repeat split; auto. discriminate.
-    + destruct (registered_usable nm axes insts rp (i_name i) (is_default axes i) R P
+      rewrite (final_form nm axes insts rp ND P).
+      destruct (reuse_usable nm (map swap (filter (newb nm) rp)) (i_name i) D2) as [m [enc [H1 [H2 H3]]]].
+      exists m, enc. repeat split; auto. apply id_allowed_spec. exact H3.
+    + destruct (registered_usable nm axes insts rp (i_name i) (is_default axes i) ND P
                   (name_registered nm axes insts i Hi D)) as [m [enc [H1 [H2 H3]]]].
-      exists m, enc. repeat split; auto.
+      exists m, enc. repeat split; auto. apply id_allowed_spec. exact H3.
   - intros i p Hi Hp.
-    destruct (registered_usable nm axes insts rp p false R P (ps_registered nm axes insts i p Hi Hp))
+    destruct (registered_usable nm axes insts rp p false ND P (ps_registered nm axes insts i p Hi Hp))
       as [m [enc [H1 [H2 H3]]]].
-    exists m, enc. repeat split; auto.
+    exists m, enc. repeat split; auto. apply id_allowed_false. exact H3.
+Qed.
+
+(* no source record is lost or changed, whatever ids the source uses *)
+Lemma source_records_kept : forall nm axes insts rp k s,
+  NoDup (map fst nm) -> Permutation rp (alloc nm axes insts) ->
+  In (k, s) nm -> In (k, s) (extend nm rp).
+Proof.
+  intros nm axes insts rp k s ND P H. rewrite (final_form nm axes insts rp ND P).
+  apply in_or_app. left. exact H.
 Qed.
 
 (* every record of the final table is non-empty when the source strings are *)
 Lemma final_records_nonempty : forall nm axes insts rp,
-  ids_reserved nm -> Permutation rp (alloc nm axes insts) ->
+  NoDup (map fst nm) -> Permutation rp (alloc nm axes insts) ->
   Forall (fun e => snd e <> []) nm ->
   Forall (fun s => s <> []) (map fst (alloc nm axes insts)) ->
   Forall (fun e => snd e <> []) (extend nm rp).
 Proof.
-  intros nm axes insts rp R P Hn Hr. rewrite (final_form nm axes insts rp R P).
+  intros nm axes insts rp ND P Hn Hr. rewrite (final_form nm axes insts rp ND P).
   apply Forall_app. split; [exact Hn|].
   rewrite Forall_forall in *. intros e He. apply in_map_iff in He as [[s k] [E He]]. subst e. simpl.
+  apply filter_In in He as [He _].
   apply Hr. apply in_map_iff. exists (s, k). split; [reflexivity|].
   apply Permutation_in with rp; assumption.
 Qed.
 
-(* only labels, instance names and instance PostScript names are ever registered *)
+(* only source strings, labels, instance names and instance PostScript names are in reusable_names *)
 Lemma register_only : forall st s e, In e (snd (register st s)) -> In e (snd st) \/ fst e = s.
 Proof.
   intros [gen m] s e. unfold register. destruct (rmap_mem s m); simpl; [auto|].
@@ -505,122 +766,98 @@ Proof.
 Qed.
 
 Lemma registered_strings_are_source : forall nm axes insts s,
-  ids_reserved nm -> In s (map fst (alloc nm axes insts)) ->
-  (exists a, In a (variable_axes axes) /\ a_label a = s)
+  In s (map fst (alloc nm axes insts)) ->
+  (exists k, In (k, s) nm)
+  \/ (exists a, In a (variable_axes axes) /\ a_label a = s)
   \/ (exists i, In i (kept_instances axes insts) /\ (i_name i = s \/ i_ps i = Some s)).
 Proof.
-  intros nm axes insts s R H. apply in_map_iff in H as [e [E He]]. subst s.
-  rewrite alloc_is_state in He. unfold alloc_state in He. rewrite (reusable0_nil nm R) in He.
+  intros nm axes insts s H. apply in_map_iff in H as [e [E He]]. subst s.
+  rewrite alloc_is_state in He. unfold alloc_state in He.
   apply fold_reg_inst_only in He as [He|[i [H1 H2]]].
-  - apply fold_register_only in He as [[]|He]. left. apply in_map_iff in He as [a [E Ha]]. exists a. auto.
-  - right. exists i. split; [exact H1|]. destruct H2 as [H2|H2]; [left; symmetry; exact H2|right; exact H2].
-Qed.
-
-(* ------------------------------------------------------------------------- *)
-(* ids below 256 only where the specification allows                           *)
-
-(* fvar InstanceRecord.subfamilyNameID: 2 or 17 only for the default instance, else >= 256 *)
-Definition instance_id_allowed (dflt : bool) (id : N) : Prop :=
-  256 <= id \/ (dflt = true /\ (id = 2 \/ id = 17)).
-
-Lemma instance_ids_allowed_outside : forall nm axes insts rp i,
-  ids_reserved nm -> Permutation rp (alloc nm axes insts) ->
-  In i (kept_instances axes insts) ->
-  (forall k, In (k, i_name i) nm -> fst k = 2 \/ fst k = 17) ->
-  exists id, reusable_name_id (extend nm rp) (i_name i) (is_default axes i) = Some id
-             /\ instance_id_allowed (is_default axes i) id.
-Proof.
-  intros nm axes insts rp i R P Hi Hs.
-  destruct (used_ids_exist nm axes insts rp R P) as [_ [U _]].
-  destruct (U i Hi) as [id [enc [H1 [_ H3]]]]. exists id. split; [exact H1|].
-  destruct (rni_in _ _ _ _ H1) as [H4 _]. apply in_ids_of in H4 as [enc' H4].
-  rewrite (final_form nm axes insts rp R P) in H4. apply in_app_or in H4 as [H4|H4].
-  - destruct (is_default axes i) eqn:D.
-    + right. split; [reflexivity|]. apply (Hs (id, enc')). exact H4.
-    + left. apply H3. reflexivity.
-  - left. apply in_map_iff in H4 as [[s k] [E He]]. unfold swap in E. simpl in E. inversion E; subst.
-    apply (Permutation_in _ P) in He.
-    pose proof (alloc_inv nm axes insts R) as I. rewrite alloc_is_state in He.
-    destruct (alloc_state nm axes insts) as [gen m0]. simpl in He.
-    destruct (reg_inv_entry gen m0 _ _ I He) as [id' [E' Hid]]. unfold key_of in E'. inversion E'. lia.
+  - apply fold_register_only in He as [He|He].
+    + left. destruct e as [s k]. apply reusable0_in in He as [He _]. exists k. exact He.
+    + right. left. apply in_map_iff in He as [a [E Ha]]. exists a. auto.
+  - right. right. exists i. split; [exact H1|]. destruct H2 as [H2|H2]; [left; symmetry; exact H2|right; exact H2].
 Qed.
 
 (* ------------------------------------------------------------------------- *)
 (* independence of HashMap iteration order                                     *)
 
-Lemma find_perm_some : forall {A} (f : A -> bool) l l' x,
-  Permutation l l' -> find f l = Some x -> exists y, find f l' = Some y.
+Lemma reuses_perm : forall nm nm' s, Permutation nm nm' -> reuses_subfamily nm' s = reuses_subfamily nm s.
+Proof. intros nm nm' s P. unfold reuses_subfamily. symmetry. apply existsb_perm. exact P. Qed.
+
+(* two registration states that differ only in which source entries they started from *)
+Definition sim (base base' : rmap) (st st' : N * rmap) : Prop :=
+  fst st = fst st' /\ exists new, snd st = base ++ new /\ snd st' = base' ++ new.
+
+Lemma rmap_mem_app : forall s m m', rmap_mem s (m ++ m') = rmap_mem s m || rmap_mem s m'.
+Proof. intros. unfold rmap_mem. apply existsb_app. Qed.
+
+Lemma register_sim : forall base base' st st' s,
+  (forall x, rmap_mem x base = rmap_mem x base') ->
+  sim base base' st st' -> sim base base' (register st s) (register st' s).
 Proof.
-  intros A f l l' x P H. apply find_some in H as [H1 H2]. apply (Permutation_in _ P) in H1.
-  destruct (find f l') as [y|] eqn:E; [eexists; reflexivity|].
-  exfalso. pose proof (find_none f l' E x H1). congruence.
+  intros base base' [g m] [g' m'] s Hb [Hg [new [H1 H2]]]. simpl in Hg, H1, H2. subst g' m m'.
+  unfold register. rewrite !rmap_mem_app, (Hb s).
+  destruct (rmap_mem s base' || rmap_mem s new).
+  - split; [reflexivity|]. exists new. auto.
+  - split; [reflexivity|]. exists (new ++ [(s, key_of (g + 1) s)]). simpl. rewrite !app_assoc. auto.
 Qed.
 
-Definition no_coincidence (nm : names) (axes : list axis) (insts : list inst) : Prop :=
-  forall i, In i (kept_instances axes insts) -> is_default axes i = true ->
-    (forall k, In (k, i_name i) nm -> fst k = 2 \/ fst k = 17)
-    \/ (forall k, In (k, i_name i) nm -> fst k <> 2 /\ fst k <> 17).
+Lemma fold_register_sim : forall base base' l st st',
+  (forall x, rmap_mem x base = rmap_mem x base') ->
+  sim base base' st st' -> sim base base' (fold_left register l st) (fold_left register l st').
+Proof.
+  intros base base' l. induction l as [|s l IH]; simpl; intros st st' Hb H; [exact H|].
+  apply IH; [exact Hb|]. apply register_sim; assumption.
+Qed.
 
-Lemma reuses_perm : forall nm nm' s,
+Lemma reg_inst_sim : forall base base' nm nm' axes st st' i,
+  Permutation nm nm' -> (forall x, rmap_mem x base = rmap_mem x base') ->
+  sim base base' st st' -> sim base base' (reg_inst nm axes st i) (reg_inst nm' axes st' i).
+Proof.
+  intros base base' nm nm' axes st st' i P Hb H. unfold reg_inst.
+  rewrite (reuses_perm nm nm' (i_name i) P).
+  destruct (is_default axes i && reuses_subfamily nm (i_name i)); destruct (i_ps i);
+    repeat apply register_sim; assumption.
+Qed.
+
+Lemma fold_reg_inst_sim : forall base base' nm nm' axes l st st',
+  Permutation nm nm' -> (forall x, rmap_mem x base = rmap_mem x base') ->
+  sim base base' st st' ->
+  sim base base' (fold_left (reg_inst nm axes) l st) (fold_left (reg_inst nm' axes) l st').
+Proof.
+  intros base base' nm nm' axes l. induction l as [|i l IH]; simpl; intros st st' P Hb H; [exact H|].
+  apply IH; [exact P|exact Hb|]. apply reg_inst_sim; assumption.
+Qed.
+
+(* the newly registered entries do not depend on the iteration order of the source map *)
+Lemma alloc_new_perm : forall nm nm' axes insts,
   Permutation nm nm' ->
-  (forall k, In (k, s) nm -> fst k = 2 \/ fst k = 17) \/ (forall k, In (k, s) nm -> fst k <> 2 /\ fst k <> 17) ->
-  reuses_subfamily nm' s = reuses_subfamily nm s.
+  filter (newb nm') (alloc nm' axes insts) = filter (newb nm) (alloc nm axes insts).
 Proof.
-  intros nm nm' s P C.
-  assert (G : forall l, (forall e, In e l -> In e nm) ->
-              forall e, find (fun e : nkey * str => str_eqb (snd e) s) l = Some e -> In (fst e, s) nm).
-  { intros l Hl e H. apply find_some in H as [H1 H2]. apply str_eqb_eq in H2. subst s.
-    destruct e; simpl. apply Hl. exact H1. }
-  unfold reuses_subfamily, first_hit.
-  destruct (find (fun e : nkey * str => str_eqb (snd e) s) nm) as [e|] eqn:E;
-    destruct (find (fun e : nkey * str => str_eqb (snd e) s) nm') as [e'|] eqn:E'; cbv beta iota.
-  - pose proof (G nm (fun e H => H) e E) as H1.
-    pose proof (G nm' (fun e H => Permutation_in e (Permutation_sym P) H) e' E') as H2.
-    destruct e as [[i en] v], e' as [[i' en'] v']. cbn [fst snd] in *.
-    destruct C as [C|C].
-    + destruct (C _ H1) as [A|A]; destruct (C _ H2) as [B|B]; cbn [fst] in A, B; subst; reflexivity.
-    + destruct (C _ H1) as [A1 A2]. destruct (C _ H2) as [B1 B2]. cbn [fst] in A1, A2, B1, B2.
-      apply N.eqb_neq in A1, A2, B1, B2. rewrite A1, A2, B1, B2. reflexivity.
-  - destruct (find_perm_some (fun e : nkey * str => str_eqb (snd e) s) nm nm' e P E) as [y Hy].
-    rewrite E' in Hy. discriminate.
-  - destruct (find_perm_some (fun e : nkey * str => str_eqb (snd e) s) nm' nm e' (Permutation_sym P) E') as [y Hy].
-    rewrite E in Hy. discriminate.
-  - reflexivity.
-Qed.
-
-Lemma fold_left_ext_in : forall {A B} (f g : A -> B -> A) l a,
-  (forall a b, In b l -> f a b = g a b) -> fold_left f l a = fold_left g l a.
-Proof.
-  induction l as [|b l IH]; simpl; intros a H; [reflexivity|].
-  rewrite H by (left; reflexivity). apply IH. intros a' b' Hb. apply H. right. exact Hb.
-Qed.
-
-Lemma ids_reserved_perm : forall nm nm', Permutation nm nm' -> ids_reserved nm -> ids_reserved nm'.
-Proof.
-  unfold ids_reserved. intros nm nm' P H. rewrite Forall_forall in *. intros e He.
-  apply H. apply Permutation_in with nm'; [apply Permutation_sym; exact P|exact He].
-Qed.
-
-Lemma alloc_perm_invariant : forall nm nm' axes insts,
-  Permutation nm nm' -> ids_reserved nm -> no_coincidence nm axes insts ->
-  alloc nm' axes insts = alloc nm axes insts.
-Proof.
-  intros nm nm' axes insts P R C. unfold alloc.
-  rewrite (reusable0_nil nm R), (reusable0_nil nm' (ids_reserved_perm nm nm' P R)).
-  f_equal. apply fold_left_ext_in. intros st i Hi. unfold reg_inst.
-  destruct (is_default axes i) eqn:D; [|reflexivity]. simpl.
-  rewrite (reuses_perm nm nm' (i_name i) P (C i Hi D)). reflexivity.
+  intros nm nm' axes insts P.
+  assert (S : sim (reusable0 nm) (reusable0 nm') (alloc_state nm axes insts) (alloc_state nm' axes insts)).
+  { unfold alloc_state. apply fold_reg_inst_sim; [exact P|intro x; apply reusable0_mem_perm; exact P|].
+    apply fold_register_sim; [intro x; apply reusable0_mem_perm; exact P|].
+    split; [simpl; apply max_name_id_perm; exact P|]. exists []. simpl. rewrite !app_nil_r. auto. }
+  destruct S as [_ [new [S1 S2]]]. rewrite <- !alloc_is_state in S1, S2.
+  destruct (alloc_split nm axes insts) as [m1 [Ha [Hf _]]].
+  destruct (alloc_split nm' axes insts) as [m1' [Ha' [Hf' _]]].
+  rewrite Hf, Hf'. rewrite Ha in S1. rewrite Ha' in S2.
+  apply app_inv_head in S1. apply app_inv_head in S2. congruence.
 Qed.
 
 Lemma extend_perm_invariant : forall nm nm' axes insts rp rp',
-  Permutation nm nm' -> ids_reserved nm -> no_coincidence nm axes insts ->
+  Permutation nm nm' -> NoDup (map fst nm) ->
   Permutation rp (alloc nm axes insts) -> Permutation rp' (alloc nm' axes insts) ->
   Permutation (extend nm' rp') (extend nm rp).
 Proof.
-  intros nm nm' axes insts rp rp' P R C Hp Hp'.
-  rewrite (final_form nm axes insts rp R Hp).
-  rewrite (final_form nm' axes insts rp' (ids_reserved_perm nm nm' P R) Hp').
-  apply Permutation_app; [apply Permutation_sym; exact P|].
-  apply Permutation_map. rewrite (alloc_perm_invariant nm nm' axes insts P R C) in Hp'.
-  eapply Permutation_trans; [exact Hp'|apply Permutation_sym; exact Hp].
+  intros nm nm' axes insts rp rp' P ND Hp Hp'.
+  assert (ND' : NoDup (map fst nm')) by (apply Permutation_NoDup with (map fst nm); [apply Permutation_map; exact P|exact ND]).
+  rewrite (final_form nm axes insts rp ND Hp), (final_form nm' axes insts rp' ND' Hp').
+  apply Permutation_app; [apply Permutation_sym; exact P|]. apply Permutation_map.
+  eapply Permutation_trans; [apply filter_perm; exact Hp'|].
+  rewrite (alloc_new_perm nm nm' axes insts P).
+  apply Permutation_sym. apply filter_perm. exact Hp.
 Qed.
